@@ -57,6 +57,11 @@ def m_npfloat(y_true, y_pred, **kw):
     return np.float64(m_lin(y_true, y_pred, **kw)) / np.float64(len(y_true))
 
 
+def m_const(y_true, y_pred, **kw):
+    """Constant over the rows: every resample and every group gives the same value."""
+    return 3.5
+
+
 def _fl(name):
     import fairlearn.metrics as fm
 
@@ -64,8 +69,9 @@ def _fl(name):
 
 
 def metric_callable(key):
-    if key in ("lin", "max", "wmean", "npint", "npfloat"):
-        return {"lin": m_lin, "max": m_max, "wmean": m_wmean, "npint": m_npint, "npfloat": m_npfloat}[key]
+    if key in ("lin", "max", "wmean", "npint", "npfloat", "const"):
+        return {"lin": m_lin, "max": m_max, "wmean": m_wmean, "npint": m_npint, "npfloat": m_npfloat,
+                "const": m_const}[key]
     if key in ("count", "selection_rate", "mean_prediction", "true_positive_rate", "false_positive_rate",
                "true_negative_rate", "false_negative_rate"):
         return _fl(key)
@@ -83,6 +89,7 @@ METRIC_PARAMS = {
     "npint": ["p"],
     "npfloat": ["sample_weight", "p"],
     "wmean": ["sample_weight"],
+    "const": ["p"],
     "count": [],
     "selection_rate": ["sample_weight"],
     "mean_prediction": ["sample_weight"],
